@@ -17,7 +17,7 @@ RULE = ("every list (order and repetition matter) of the stated length over the 
         "non-trivial = distinct (class, platform, list) whose output has fewer elements than the "
         "input (something was merged or dropped)")
 ASSUMPTIONS = ["exact union comparison by cube cover; element count by disjoint decomposition"]
-REQUIRED = ["merged_or_dropped", "unchanged_length", "refused_nc", "refused_foreign"]
+REQUIRED = ["merged_or_dropped", "unchanged_length", "refused_nc", "refused_foreign", "relined_ok"]
 
 
 def blocks(seed):
@@ -54,6 +54,7 @@ def units(tier, seed):
                 for b in range(n):
                     out.append(dict(kind="lists", cls=cls, platform=plat, first=[a, b]))
             out.append(dict(kind="refuse", cls=cls, platform=plat))
+            out.append(dict(kind="relined", cls=cls, platform=plat))
     out.sort(key=lambda u: u["kind"] != "short")
     return out
 
@@ -151,6 +152,8 @@ def run_unit(unit, ctx):
         if first[0] in SUB and first[1] in SUB:
             for rest in product(SUB, repeat=_L(ctx.tier) - 1):
                 _check(cls, plat, first + rest, ctx)
+    elif unit["kind"] == "relined":
+        _relined(cls, plat, ctx)
     else:
         _refuse(cls, plat, ctx)
 
@@ -158,8 +161,43 @@ def run_unit(unit, ctx):
 def replay(case, ctx):
     if case["kind"] == "list":
         _check(case["cls"], case["platform"], tuple(case["idxs"]), ctx)
+    elif case["kind"] == "relined":
+        _relined(case["cls"], case["platform"], ctx)
     else:
         _refuse(case["cls"], case["platform"], ctx)
+
+
+def _relined(cls, platform, ctx):
+    """collapse([a, b]); a.line = <third block>; collapse([a, b]) - on the SAME objects."""
+    from cisco_acl import Address, AddressAg, address, address_ag
+
+    klass, func = (Address, address.collapse) if cls == "Address" else (AddressAg, address_ag.collapse)
+    blk = blocks(ctx.seed)
+    n = 15  # the /29 tree
+    for i, j, k in product(range(n), repeat=3):
+        if i == k:
+            continue
+        ti, tj, tk = (_spell(cls, platform, *blk[x], variant=0) for x in (i, j, k))
+        if None in (ti, tj, tk):
+            continue
+        ctx.ev()
+        case = dict(kind="relined", cls=cls, platform=platform, idxs=[i, j, k], texts=[ti, tj, tk])
+        try:
+            a, b = klass(ti, platform=platform), klass(tj, platform=platform)
+            func([a, b])
+            a.line = tk
+            out = func([a, b])
+        except Exception as ex:  # noqa
+            ctx.viol(f"{cls}.collapse:relined_exception", case, repr(ex), "collapsed list")
+            continue
+        got = tuple(S.prefix_cube(int(o.ipnet.network_address), o.ipnet.prefixlen) for o in out)
+        want = (S.prefix_cube(*blk[k]), S.prefix_cube(*blk[j]))
+        if not S.addr_equal(got, want):
+            ctx.viol(f"{cls}.collapse:stale_after_reassignment", case, [o.line for o in out], [tk, tj])
+        else:
+            ctx.out("relined_ok")
+            ctx.nt((cls, platform, "relined", i, j, k))
+    ctx.sample("relined", dict(cls=cls, platform=platform))
 
 
 def _check_empty(cls, platform, ctx):
